@@ -186,6 +186,7 @@ def check_c02(pid, tier, seed, replay):
     rj += [{"prog": M.operand_family(rng), "input": []} for _ in range(80 if quick else 2000)]
     rj += [{"prog": M.selfret_family(rng), "input": []} for _ in range(30 if quick else 600)]
     rj += [{"prog": M.twolabel_family(rng), "input": []} for _ in range(30 if quick else 600)]
+    rj += [{"prog": M.lastswitch_family(rng), "input": []} for _ in range(24 if quick else 500)]
     cpath3 = os.path.join(work, "cases_rj.json")
     M.write_cases(cpath3, rj)
     obs = M.run_obs(ck, cpath3, "Trj", levels="0,1,2", bound=500, timeout_ms=600)
